@@ -58,7 +58,8 @@ class Parallelogram(Domain):
         _, _, _, dir_1, dir_2 = self._construct_parallelogram(params, device=device)
         # volume equals the determinate of the matrix [dir_1, dir_2]
         volume = dir_1[:, :1] * dir_2[:, 1:] - dir_1[:, 1:] * dir_2[:, :1]
-        return volume
+        # the determinant is negative if the corners are ordered clockwise
+        return torch.abs(volume)
 
     def _construct_parallelogram(self, params=Points.empty(), device="cpu"):
         origin = self.origin(params, device).reshape(-1, 2)
